@@ -158,6 +158,7 @@ class JobRunner:
         self.api = injection.provide(i_controller.LightApi)
         self.saved = [self._state(l) for l in self.api.get_lights()]
         self.ctl = {}
+        self.direct = None      # set to a () -> bool: execute the next run without prepare()
 
     @staticmethod
     def _state(l):
@@ -205,7 +206,10 @@ class JobRunner:
         del self.rec.events[:]
         status = 'FIN'
         try:
-            job.prepare()
+            # the job runner prepares a job before it starts it; a job executed directly (ScriptJob.execute) runs the same: a
+            # stop request that was used up by an earlier run does not reach into this one either way
+            if self.direct is None or not self.direct():
+                job.prepare()
             job.execute()
         except Exception as ex:
             ctl['exc'] = ex
@@ -237,6 +241,8 @@ def run_histories(ctx, n_jobs):
             text = text + rng.choice(['\nassign zz0 0\nprintf "{} {}\\n" 7 {100 / zz0}\nprint 5\n', '\nprint 11 printf "{} {} {}" 1 2 {1 % 0}\n',
                                       '\nassign zz1 "a"\nprintln {zz1 * zz1}\n'])
         r = JobRunner(world)
+        if j % 3 == 1:
+            r.direct = lambda: rng.random() < 0.6
         try:
             job = r.new_job(text)
             if job.program is None:
